@@ -50,6 +50,7 @@ FAULT_TABLE = [
     ('I', '     ', ['ConfigError']), ('I', '\t\t\t\t\t\t', ['ConfigError']), ('I', 'x    ', ['ConfigError']), ('I', '  [1  ', ['ConfigError']),
     ('I', ' \n \n \n', ['ConfigError']), ('LGG', ['a', 'b', 'c', 'd', 'e'], ['ConfigError']), ('LGG', ['a', 'b', 'c'], ['ConfigError']),
     ('LGG', ['a', 'b', 'c', 'd', 'e', 'f'], ['ConfigError']),
+    ('LNA', ['a', 'b'], ['ConfigError']), ('SLNA', 'a, b', ['ConfigError']),       # graders without any answers, called without expect
     ('IB', '<1,2]', ['InvalidInput']), ('IB', '[1,2>', ['InvalidInput']), ('IB', '|1,2|', ['InvalidInput']), ('IB', '{1,2|', ['InvalidInput']),
     ('ML', 'v', ['InputTypeError']), ('ML', '[1,2]', ['InputTypeError']), ('ML', 'A', ['InputTypeError']), ('ML', 'A^2', ['InputTypeError']),
     ('MLV', 'x', ['InputTypeError']), ('MLV', 'A', ['InputTypeError']), ('MV', '3', ['InputTypeError']), ('MV', '[1,2,3]', ['InputTypeError']),
@@ -336,6 +337,10 @@ def run_table(ctx):
             return M.StringGrader(answers='cat', validation_pattern='[a-z]+')
         if kind == 'I':
             return M.IntervalGrader(answers='[1,2]')
+        if kind == 'LNA':
+            return M.ListGrader(answers=(), subgraders=M.StringGrader())
+        if kind == 'SLNA':
+            return M.SingleListGrader(subgrader=M.StringGrader())
         if kind == 'LGG':
             return M.ListGrader(answers=[['a', 'b'], ['c', 'd']], subgraders=M.ListGrader(subgraders=M.StringGrader()), grouping=[1, 1, 2, 2])
         if kind == 'FI':
